@@ -42,6 +42,7 @@ if REPO not in sys.path:
 
 PROP = "C19"
 SWITCHES = ["AttachRederivesFlags", "UnderscoreBypass", "ShadowKeyRaises", "InsertKeepsMapOrder"]
+OLD_PROTOCOL_ONLY = {"AttachRederivesFlags", "UnderscoreBypass", "ShadowKeyRaises"}      # deviations of the re-attaching protocol
 FORMULAS = ["Completes", "Faithful", "ContentFaithful", "Disjoint", "OrigUntouched", "Isolated", "Behaves"]
 
 FINDINGS = {
@@ -337,9 +338,21 @@ class Hooks:
         C._recreate, C.__setstate__, CL.append, CD.__setitem__ = self.saved
         return False
 
-    def events(self):
-        """events with the path of the node concerned (paths follow the Attach edges)"""
+    def events(self, root=None):
+        """events with the path of the node concerned: its place in the finished copy (built-in view names), or -
+        when the copy failed - what the Attach edges seen so far tell"""
         parent = {}
+        if root is not None:
+            L = lib()
+
+            def walk(node):
+                if isinstance(node, L["ComposedNode"]):
+                    cm, bi = views(node)
+                    for n, c in bi + [(n, c) for n, c in cm if all(c is not x for _, x in bi)]:
+                        if id(c) not in parent:
+                            parent[id(c)] = (id(node), n)
+                            walk(c)
+            walk(root)
         for e in self.ev:
             if e[0] == "Attach":
                 parent.setdefault(e[2], (e[1], e[3]))
@@ -474,7 +487,7 @@ def record_copy(case, variant, muts, tid=0):
     except Exception as e:  # noqa
         rec["st"] = type(e).__name__
         rec["msg"] = str(e)[:300]
-    rec["ev"] = h.events()
+    rec["ev"] = h.events(cp)
     rec["origafter"] = dproj(orig)
     if cp is not None:
         rec["copy"] = dproj(cp)
@@ -790,11 +803,28 @@ def active_switches():
                 off.add(f["deviation"])
     except Exception:  # noqa
         pass
+    if state_carries_children():
+        off |= OLD_PROTOCOL_ONLY          # no mutator takes part in the reconstruction any more
     return [s for s in SWITCHES if s not in off]
 
 
-def _consts(on, protos=("pickle", "deepcopy"), maxmut=0, maxedits=0, mode="fold", smin=1, smax=1, safes="{TRUE}", ctx=True, mutation=None):
+_PROTO = {}
+
+
+def state_carries_children():
+    """which reconstruction protocol the library under test implements: does __reduce__ hand out item iterators
+    (children re-attached through the mutators) or does the state carry the children (proposed repair)?"""
+    if "v" not in _PROTO:
+        L = lib()
+        r = L["ConfigNode"]([1]).__reduce__()
+        _PROTO["v"] = len(r) < 4 or (r[3] is None and (len(r) < 5 or r[4] is None))
+    return _PROTO["v"]
+
+
+def _consts(on, protos=("pickle", "deepcopy"), maxmut=0, maxedits=0, mode="fold", smin=1, smax=1, safes="{TRUE}", ctx=True, mutation=None,
+            scc=None):
     c = {s: ("TRUE" if s in on else "FALSE") for s in SWITCHES}
+    c["StateCarriesChildren"] = "TRUE" if (state_carries_children() if scc is None else scc) else "FALSE"
     c.update({"Protocols": "{" + ", ".join(json.dumps(p) for p in protos) + "}", "MaxMut": str(maxmut), "MaxEdits": str(maxedits),
               "Mode": json.dumps(mode), "MinStages": str(smin), "MaxStages": str(smax), "SafeFlags": safes,
               "CtxOn": "TRUE" if ctx else "FALSE"})
@@ -1042,7 +1072,9 @@ def run(prop, tier, seed, replay, keep):
     ON = active_switches()
     tmo = 500 if quick else 1700
     cov = {"configs": [], "mutations": [], "states": 0, "transitions": 0, "traces_validated_against_impl": 0, "samples": [],
-           "evaluations": 0, "distinct_nontrivial": 0, "exhaustive": True, "deviation_switches_on": ON}
+           "evaluations": 0, "distinct_nontrivial": 0, "exhaustive": True, "deviation_switches_on": ON,
+           "protocol": "state carries the children (no mutator involved)" if state_carries_children() else
+                       "children re-attached through append / __setitem__ (composed.py __reduce__ with item iterators)"}
     violations, drift, known_hits = [], 0, {}
     drift_notes = []
 
@@ -1067,7 +1099,7 @@ def run(prop, tier, seed, replay, keep):
             c = _consts([], mode=mode, smin=smin, smax=smax, **kw)
             jobs.append(("intended/" + name, unis[(docs, rng)][0], mc_cfg(c, INVS, True, isolated), 6 if name in ("hist", "parsed", "c04", "c08", "hist-mut") else 3))
         for name, docs, rng, mode, (smin, smax), sw, mu, kw, expect in MUTATIONS:
-            c = _consts(sw, mode=mode, smin=smin, smax=smax, mutation=mu, **kw)
+            c = _consts(sw, mode=mode, smin=smin, smax=smax, mutation=mu, scc=False, **kw)
             jobs.append(("mutation/" + name, unis[(docs, rng)][0], mc_cfg(c, [e for e in expect if e.startswith("Inv_")] or INVS, False, "Prop_Isolated" in expect), 3))
         jobs.append(("witness", unis[("C19_HistQ", "C19_HistRangeQ")][0],
                      mc_cfg(_consts([], mode="fold", smin=2, smax=2, protos=("deepcopy",), ctx=False), ["Inv_NoWitness"], False, False), 3))
